@@ -278,6 +278,10 @@ def check(ctx):
     c01.rule_locate_many(Renamed(ctx, {'*': 'R6'}))
     # reindex_axis(values, axis=k) fills through put(..., axis=k): the (index, axis) form of _get_indices (shared with C01)
     c01.rule_axis_argument(ctx, rid='R7')
+    # the labels of newly inserted positions are written through Axis.__setitem__ (shared with C05)
+    from . import c05 as _c05
+    ctx.rule('R8', 'Axis.__setitem__ keeps the widened label buffer it writes into', 1)
+    _c05.rule_axis_setitem(ctx, 'R8')
     ctx.not_decided += ['slice-by-slice equality with the original data', 'identity on own labels', 'searchsorted neighbour semantics for method=']
     ctx.trusted += ['ndarray.take(indices, axis=) semantics', 'np.searchsorted / ndarray.take(mode=clip) semantics']
     return EXPLANATION
